@@ -18,7 +18,7 @@ out += ["", "## 12. Seeded changes (independent sub-agents, property text only) 
 for m in sorted(glob.glob(os.path.join(V, "seeded", "*", "meta.json"))):
     d = json.load(open(m))
     need = re.sub(r"[|\n]", " ", d.get("needs_to_manifest", ""))[:260]
-    out.append("| %s | %s | %s | %s |" % (d["id"], d["property"], need, ", ".join(d.get("caught_by", [])[:4]) if d.get("caught") else "**missed** (see §13)"))
+    out.append("| %s | %s | %s | %s |" % (d["id"], d["property"], need, ", ".join(d.get("caught_by", [])[:4]) if d.get("caught") else ("quick: missed; thorough: " + ", ".join(d["caught_by_thorough"]) if d.get("caught_by_thorough") else "**missed** (see §13)")))
 out += ["", "<!-- GENERATED-END -->"]
 p = os.path.join(V, "DESIGN.md"); s = open(p).read()
 blk = "\n".join(out)
